@@ -93,7 +93,7 @@ def prop(pid, **kw):
 
 prop("C01",
      specgen=(40, 1500),
-     scripts=lambda tier, rnd: S.basic() + S.collision() + S.stop_points() + S.reaction_table() + S.gated() + S.fsm_points() + S.api_races() + S.life_cycle() + S.two_sessions() + S.pm_busy() + S.pm_gates() +
+     scripts=lambda tier, rnd: S.basic() + S.collision() + S.stop_points() + S.reaction_table() + S.gated() + S.fsm_points() + S.api_races() + S.life_cycle() + [x for x in S.rx_notif_grid() if "-openSent-2-" in x["id"]] + S.two_sessions() + S.pm_busy() + S.pm_gates() +
      sample(S.pacing(), rnd, 200 if tier == "thorough" else 30) + S.collision_racy(rnd, 400 if tier == "thorough" else 10) +
      (S.damping() + S.writers() + S.registry(rnd, 120) if tier == "thorough" else sample(S.damping(), rnd, 10)),
      mc=lambda tier: [mc_pair(["openLo", "ka"])] if tier == "quick" else
@@ -131,7 +131,7 @@ prop("C09",
 
 prop("C10",
      specgen=(40, 1500),
-     scripts=lambda tier, rnd: S.stop_points() + [x for x in S.backpressure() if "stop" in x["tags"] or "end" in x["tags"]] + S.lis_fail() + S.life_cycle() + [x for x in S.admission() if "-other" in x["id"] or "unspec" in x["id"]][:16] + [x for x in S.slow_callbacks() if "end" in x["tags"]] + S.gated() + S.fsm_points() + S.api_races() + S.pm_busy() + S.pm_gates() + S.close_race_connect(12 if tier == "thorough" else 4) + S.stop_dial_race(12 if tier == "thorough" else 3) +
+     scripts=lambda tier, rnd: S.stop_points() + [x for x in S.backpressure() if "stop" in x["tags"] or "end" in x["tags"]] + S.lis_fail() + S.life_cycle() + [x for x in S.admission() if "-other" in x["id"] or "unspec" in x["id"]][:16] + [x for x in S.trailing() if "kabody" in x["id"] or "bigupd" in x["id"]] + [x for x in S.slow_callbacks() if "end" in x["tags"]] + S.gated() + S.fsm_points() + S.api_races() + S.pm_busy() + S.pm_gates() + S.close_race_connect(12 if tier == "thorough" else 4) + S.stop_dial_race(12 if tier == "thorough" else 3) +
      S.stop_everywhere(rnd, 1200 if tier == "thorough" else 60),
      mc=lambda tier: [mc_pair(["openLo", "ka"])] if tier == "quick" else
      [mc_pair(["openLo", "ka", "upd"], dials=2), mc_pair(["openHi", "ka", "notif"], dials=2),
